@@ -52,6 +52,8 @@ type Case struct {
 	Tr      []TrSpec `json:"transcripts,omitempty"`
 }
 
+const legacyID = 9999
+
 // Verdict of one verifier call.
 const (
 	vAccept = "accept"
@@ -63,6 +65,10 @@ const (
 func msgBytes(id int) []byte {
 	if id == 0 {
 		return []byte{}
+	}
+
+	if id == legacyID { // the message Tink's LEGACY output prefix type appends (cryptofmt.LegacyStartByte)
+		return []byte{0}
 	}
 
 	s := fmt.Sprintf("_:c14n%d <http://example.org/p%d> \"v%d\" .", id%5, id%11, id)
@@ -213,12 +219,19 @@ type Obs struct {
 	Verdicts   []string `json:"verdicts"`
 	Intact     bool     `json:"intact"`
 	Transcript [][]int  `json:"transcripts,omitempty"`
+	KeyPrefix  []int    `json:"key_prefix,omitempty"`   // the bytes the keyset put in front of the signature
+	ProofPfx   []int    `json:"proof_prefix,omitempty"` // ... and in front of the derived proof
+	SigChecks  []string `json:"sig_checks,omitempty"`
 	Details    []string `json:"details,omitempty"`
 }
 
 func partyOf(c *Case) party {
 	if c.Level == "tink" {
 		return newTink(c.Key)
+	}
+
+	if strings.HasPrefix(c.Level, "tinkp-") {
+		return newPref(strings.TrimPrefix(c.Level, "tinkp-"), c.Key)
 	}
 
 	return newPrim(c.Key)
@@ -264,6 +277,47 @@ func runCaseOpt(kind string, c *Case, tr *hx.Trace, withCoq bool) {
 		fail("sign-verify-"+obs.SignVerify, "a fresh signature over the vector does not verify")
 	}
 
+	// signature level (direct oracle): VerifyMulti accepts only this key's signature over exactly these messages
+	pfxLen := 0
+	pp, isPref := p.(*prefParty)
+
+	if isPref {
+		pfxLen = pp.prefixLen()
+	}
+
+	if obs.SignVerify == vAccept && len(sig) > pfxLen {
+		type sc struct {
+			name string
+			f    func() error
+		}
+
+		chg := msgsOf(c.Msgs)
+		chg[len(chg)-1] = msgBytes(8000 + len(chg))
+		checks := []sc{{"changed-message", func() error { return p.verify(chg, sig) }},
+			{"dropped-message", func() error { return p.verify(msgsOf(c.Msgs[:len(c.Msgs)-1]), sig) }},
+			{"extra-message", func() error { return p.verify(append(msgsOf(c.Msgs), msgBytes(8001)), sig) }}}
+
+		if isPref {
+			alt := append([]byte{}, sig...)
+			alt[len(c.Msgs)%5%len(alt)] ^= 1 << (len(c.Msgs) % 8)
+			garbage := []byte(fmt.Sprintf("this is definitely not a BBS+ signature %d %v", c.Key, c.Msgs))
+			checks = append(checks,
+				sc{"other-keyset", func() error { return pp.verifyOther(msgs, sig) }},
+				sc{"leading-byte-altered", func() error { return pp.verify(msgs, alt) }},
+				sc{"garbage", func() error { return pp.verify(msgs, garbage) }},
+				sc{"prefix-only", func() error { return pp.verify(msgs, sig[:pfxLen]) }})
+		}
+
+		for _, k := range checks {
+			v, d := fenced(k.f)
+			obs.SigChecks = append(obs.SigChecks, k.name+":"+v)
+
+			if v != vReject {
+				fail("signature-"+k.name+"-"+v, "VerifyMulti: expected reject, implementation: "+v+" "+d)
+			}
+		}
+	}
+
 	var dd string
 
 	obs.Derive, dd = fenced(func() error {
@@ -280,11 +334,33 @@ func runCaseOpt(kind string, c *Case, tr *hx.Trace, withCoq bool) {
 		return
 	}
 
-	plen := 2 + n/8 + 1
-	obs.ProofLen = len(proof)
+	nInner := n
+	if c.Level == "tinkp-LEGACY" {
+		nInner = n + 1 // the wrapper signs one more message
+	}
 
-	for _, b := range proof[:min(plen, len(proof))] {
+	plen := 2 + nInner/8 + 1
+
+	if len(proof) < pfxLen || len(sig) < pfxLen {
+		fail("prefix-missing", "signature or proof shorter than the keyset's output prefix")
+		tr.Put(rec)
+
+		return
+	}
+
+	obs.ProofLen = len(proof) - pfxLen
+
+	for _, b := range proof[pfxLen:][:min(plen, len(proof)-pfxLen)] {
 		obs.Payload = append(obs.Payload, int(b))
+	}
+
+	for i := 0; i < pfxLen; i++ {
+		obs.KeyPrefix = append(obs.KeyPrefix, int(sig[i]))
+		obs.ProofPfx = append(obs.ProofPfx, int(proof[i]))
+	}
+
+	if string(sig[:pfxLen]) != string(proof[:pfxLen]) {
+		fail("prefix-differs", "the derived proof does not carry the output prefix of the signing key")
 	}
 
 	vs := make([]string, len(c.Attacks))
@@ -391,6 +467,19 @@ func runCaseOpt(kind string, c *Case, tr *hx.Trace, withCoq bool) {
 			}
 
 			continue
+		case "prefix": // a byte of the keyset's output prefix altered
+			pf = append([]byte{}, proof...)
+			if a.Pos < pfxLen && byte(a.Byte) != 0 {
+				pf[a.Pos] ^= byte(a.Byte)
+				expect = vReject
+			}
+		case "garbage": // not a proof at all (direct oracle only)
+			pf = []byte(fmt.Sprintf("this is definitely not a BBS+ proof %d %d %v", a.Pos, c.Key, c.Msgs))
+			if a.Pos > 0 && a.Pos < len(proof) {
+				pf = append(append([]byte{}, pf[:min(5, len(pf))]...), proof[a.Pos:]...) // foreign prefix + proof tail
+			}
+
+			expect = vReject
 		case "alter":
 			pf = append([]byte{}, proof...)
 			if a.Pos < len(pf) && byte(a.Byte) != 0 {
@@ -534,6 +623,8 @@ func coqAttack(a Attack) string {
 		return "AKey"
 	case "alter":
 		return fmt.Sprintf("(AAlter %s %d)", hx.CoqNat(a.Pos), a.Byte)
+	case "prefix":
+		return fmt.Sprintf("(APrefix %s %d)", hx.CoqNat(a.Pos), a.Byte)
 	case "forge":
 		return fmt.Sprintf("(AForge %d %s %s %s)", famCode(a.Fam), coqNatList(sortedCopy(a.ClaimedR)), coqPlainNList(a.Supplied), coqNatList(a.Pads))
 	default:
@@ -555,9 +646,37 @@ func famCode(f string) int {
 }
 
 func coqCase(c *Case, o *Obs, proof []byte) string {
-	att := make([]string, len(c.Attacks))
+	legacy := c.Level == "tinkp-LEGACY"
+	withLegacy := func(l []int) []int {
+		if legacy {
+			return append(append([]int{}, l...), legacyID)
+		}
+
+		return l
+	}
+
+	var att []string
+
 	for i, a := range c.Attacks {
-		att[i] = "(" + coqAttack(a) + ", " + coqVerdict(o.Verdicts[i]) + ")"
+		if a.Kind == "garbage" { // direct oracle only
+			continue
+		}
+
+		ca := a
+		if a.Kind == "supplied" {
+			ca.Supplied = withLegacy(a.Supplied)
+		}
+
+		if a.Kind == "honest" && legacy {
+			ca = Attack{Kind: "supplied", Supplied: withLegacy(revealedIDs(c))}
+		}
+
+		att = append(att, "("+coqAttack(ca)+", "+coqVerdict(o.Verdicts[i])+")")
+	}
+
+	kindCode := map[string]string{"tinkp-TINK": "PTink", "tinkp-LEGACY": "PLegacy", "tinkp-CRUNCHY": "PCrunchy"}[c.Level]
+	if kindCode == "" {
+		kindCode = "PRaw"
 	}
 
 	pb := "[]"
@@ -579,8 +698,9 @@ func coqCase(c *Case, o *Obs, proof []byte) string {
 		}
 	}
 
-	return fmt.Sprintf("{| c_msgs := %s; c_R := %s; c_nonce := %d; c_key := %d; c_payload := %s; c_len := %d; c_proof := %s; c_intact := %s; c_tr := %s; c_att := %s |}",
-		coqPlainNList(c.Msgs), coqNatList(c.R), c.Nonce, c.Key, coqPlainNList(o.Payload), o.ProofLen, pb, hx.CoqBool(o.Intact), hx.CoqList(trs), hx.CoqList(att))
+	return fmt.Sprintf("{| c_msgs := %s; c_R := %s; c_nonce := %d; c_key := %d; c_payload := %s; c_len := %d; c_proof := %s; c_intact := %s; c_kind := %s; c_keypfx := %s; c_pfx := %s; c_tr := %s; c_att := %s |}",
+		coqPlainNList(withLegacy(c.Msgs)), coqNatList(c.R), c.Nonce, c.Key, coqPlainNList(o.Payload), o.ProofLen, pb, hx.CoqBool(o.Intact),
+		kindCode, coqPlainNList(o.KeyPrefix), coqPlainNList(o.ProofPfx), hx.CoqList(trs), hx.CoqList(att))
 }
 
 // ---------- generators ----------
@@ -968,6 +1088,18 @@ func corpus(dir string, tr *hx.Trace) {
 			continue
 		}
 
+		if c.Case.Level == "cred" {
+			var cc struct {
+				Case *CredCase `json:"case"`
+			}
+
+			if json.Unmarshal(b, &cc) == nil && cc.Case != nil {
+				runCred("corpus", cc.Case, tr)
+			}
+
+			continue
+		}
+
 		runCase("corpus", c.Case, tr)
 	}
 }
@@ -1005,6 +1137,16 @@ func main() {
 	corpus(args.Extra, tr)
 
 	rng := hx.NewRng(args.Seed)
+
+	if f := os.Getenv("C17_FORM"); f != "" { // development aid: only credentials of one form
+		for i := 0; i < 12; i++ {
+			cc := randomCred(rng.Fork(uint64(i)))
+			cc.Form = f
+			runCred("credential", cc, tr)
+		}
+
+		return
+	}
 	thorough := args.Tier == "thorough"
 
 	// 1. exhaustive: every non-empty reveal subset for n <= 5 (quick) / 6 (thorough), primitive level
@@ -1037,7 +1179,7 @@ func main() {
 	}
 
 	// 3. random vectors of 1..32 messages, random subsets (given in random order), both levels
-	nRandom, nAlter, nAll := 150, 24, 1
+	nRandom, nAlter, nAll := 110, 24, 1
 	if thorough {
 		nRandom, nAlter, nAll = 2000, 250, 8
 	}
@@ -1082,6 +1224,36 @@ func main() {
 		runCase("alter", c, tr)
 	}
 
+	// 8. Tink keysets of every output prefix type: the wrapper must accept only what this keyset's key produced
+	nPref := 10
+	if thorough {
+		nPref = 120
+	}
+
+	for _, kindP := range []string{"RAW", "TINK", "LEGACY", "CRUNCHY"} {
+		for i := 0; i < nPref; i++ {
+			cnt++
+			r := rng.Fork(cnt)
+			n := 1 + r.Intn(9)
+
+			if i%5 == 4 {
+				n = []int{7, 8, 15, 16, 23}[r.Intn(5)]
+			}
+
+			c := &Case{Level: "tinkp-" + kindP, Msgs: randomMsgs(r, n), R: shuffled(r, randomSubset(r, n)), Nonce: r.Intn(4), Key: r.Intn(2)}
+			c.Attacks = listAttacks(c, r)
+
+			if kindP != "RAW" {
+				for pos := 0; pos < 5; pos++ {
+					c.Attacks = append(c.Attacks, Attack{Kind: "prefix", Label: "prefix", Pos: pos, Byte: xorMask(r)})
+				}
+			}
+
+			c.Attacks = append(c.Attacks, Attack{Kind: "garbage", Label: "garbage"}, Attack{Kind: "garbage", Label: "foreign-prefix", Pos: 5})
+			runCase("tink-prefix", c, tr)
+		}
+	}
+
 	// 7. structurally crafted proofs and the verifier's challenge transcript
 	nForge := 24
 	if thorough {
@@ -1111,7 +1283,16 @@ func main() {
 
 	for i := 0; i < nCred; i++ {
 		cnt++
-		runCred("credential", randomCred(rng.Fork(cnt)), tr)
+		cc := randomCred(rng.Fork(cnt))
+		if f := os.Getenv("C17_FORM"); f != "" {
+			cc.Form = f
+		}
+
+		runCred("credential", cc, tr)
+	}
+
+	if os.Getenv("C17_FORM") != "" {
+		return
 	}
 
 	// 5. every position of a proof (direct oracle only)
